@@ -181,6 +181,7 @@ class QuantifiersRemover(engines.engine.Engine, CompilerMixin):
         new_problem.name = f"{self.name}_{problem.name}"
         new_problem.clear_timed_goals()
         new_problem.clear_goals()
+        new_problem.clear_trajectory_constraints()
         new_problem.clear_quality_metrics()
 
         for action in new_problem.actions:
